@@ -213,6 +213,60 @@ func installEventMonitor(w *Writers, prop string) {
 				Detail: fmt.Sprintf("replica %d at emission of %s: %s", i, rec.kind, msg)})
 		}
 	})
+	// pump: the harness's slow subscribers read what has been delivered so far
+	pump := func(w *Writers) bool {
+		progress := false
+		m.mu.Lock()
+		subs := map[int]event.Subscription{}
+		for i, s := range m.subs {
+			subs[i] = s
+		}
+		chans := map[int]<-chan events.Event{}
+		for i, c := range m.legacy {
+			chans[i] = c
+		}
+		m.mu.Unlock()
+		for i, sub := range subs {
+		drainBus:
+			for {
+				select {
+				case evt, ok := <-sub.Out():
+					if !ok {
+						break drainBus
+					}
+					if rec, ok := recOf(evt); ok {
+						m.mu.Lock()
+						m.received[i] = append(m.received[i], rec)
+						m.mu.Unlock()
+					}
+					progress = true
+				default:
+					break drainBus
+				}
+			}
+		}
+		for i, c := range chans {
+		drainLegacy:
+			for {
+				select {
+				case evt, ok := <-c:
+					if !ok {
+						break drainLegacy
+					}
+					if rec, ok := recOf(evt); ok {
+						m.mu.Lock()
+						m.legacyRx[i] = append(m.legacyRx[i], rec)
+						m.mu.Unlock()
+					}
+					progress = true
+				default:
+					break drainLegacy
+				}
+			}
+		}
+		return progress
+	}
+	w.Pumps = append(w.Pumps, pump)
 	lens := map[int]map[string]bool{}
 	w.Before = append(w.Before, func(w *Writers, a string) {
 		m.mu.Lock()
